@@ -16,6 +16,9 @@ abbrev len : Nat := Gen.C20.shortLen
 /-- the alphabet has no repeated character and at least two characters -/
 theorem alphabet_ok : al.Nodup ∧ 2 ≤ al.length := by decide +kernel
 
+/-- the numbers of the statement: 22 characters of a 57-letter alphabet -/
+theorem sizes : len = 22 ∧ al.length = 57 := by decide +kernel
+
 /-- `len` characters are enough for every 128-bit number -/
 theorem capacity : maxUuid ≤ al.length ^ len := by decide +kernel
 
